@@ -134,6 +134,9 @@ type Cluster struct {
 	// ReplCutFrom: the node cannot reach its peers for replication (as a leader), while
 	// the coordinator and the clients still reach it.
 	ReplCutFrom map[string]bool
+	// ReplCutTo: no leader reaches that node for replication (a follower that falls behind), while the
+	// coordinator still reaches it.
+	ReplCutTo map[string]bool
 	// DropBecomeLeaderResp: that many BecomeLeader calls are executed by the node but their
 	// response is lost on the way back (the coordinator sees an error)
 	DropBecomeLeaderResp int
@@ -157,6 +160,16 @@ func (c *Cluster) CutReplicationFrom(name string) {
 	}
 }
 
+// CutReplicationTo severs the replication towards a node.
+func (c *Cluster) CutReplicationTo(name string) {
+	c.ReplCutTo[name] = true
+	for _, st := range c.Repl.Streams {
+		if st.follower == name {
+			st.Break()
+		}
+	}
+}
+
 // Isolate partitions a node away from the coordinator and the other nodes.
 func (c *Cluster) Isolate(name string) {
 	c.Isolated[name] = true
@@ -174,6 +187,7 @@ func (c *Cluster) Heal(name string) {
 	delete(c.Isolated, name)
 	delete(c.CoordCut, name)
 	delete(c.ReplCutFrom, name)
+	delete(c.ReplCutTo, name)
 	if c.Nodes[name].Up {
 		c.Repl.Down[name] = false
 	}
@@ -189,9 +203,9 @@ func NewCluster(s *vsched.Sched, names []string, syncData bool) *Cluster {
 	kv.VerifMemTableSize = 1 << 20
 	kv.VerifNoAutoCompactions = RealDiskNext
 	c := &Cluster{RealDisk: RealDiskNext, S: s, Env: NewEnv(s), Nodes: map[string]*Node{}, Repl: NewNet(), SyncData: syncData, SegSize: 64 * 1024, nextGrp: 10,
-		Isolated: map[string]bool{}, CoordCut: map[string]bool{}, ReplCutFrom: map[string]bool{}}
+		Isolated: map[string]bool{}, CoordCut: map[string]bool{}, ReplCutFrom: map[string]bool{}, ReplCutTo: map[string]bool{}}
 	c.Repl.Blocked = func(ownerGrp int, follower string) bool {
-		if c.Isolated[follower] {
+		if c.Isolated[follower] || c.ReplCutTo[follower] {
 			return true
 		}
 		for name, n := range c.Nodes {
